@@ -273,7 +273,60 @@ def config_cause(case):
                 walk(json.loads(txt), None)
             except ValueError:
                 pass
-    return "yaml-malformed-type" if bad else "none"
+    if bad:
+        return "yaml-malformed-type"
+    if has_recursive_alias(case):
+        return "recursive-alias"
+    return "none"
+
+
+def has_recursive_alias(case):
+    """does the JSON Schema / OpenAPI input define a type that refers to itself WITHOUT passing
+    through an object property (array items, additionalProperties, plain $ref, union branches)?"""
+    txt = case["files"].get("schema.json")
+    if not txt:
+        return False
+    try:
+        doc = json.loads(txt)
+    except ValueError:
+        return False
+    defs = {}
+    if isinstance(doc, dict):
+        for key in ("definitions", "$defs"):
+            if isinstance(doc.get(key), dict):
+                defs.update(doc[key])
+        comps = doc.get("components")
+        if isinstance(comps, dict) and isinstance(comps.get("schemas"), dict):
+            defs.update(comps["schemas"])
+
+    def alias_targets(s, acc):
+        if not isinstance(s, dict):
+            return
+        r = s.get("$ref")
+        if isinstance(r, str):
+            acc.add(r.split("/")[-1])
+        for k in ("items", "additionalProperties"):
+            alias_targets(s.get(k), acc)
+        for k in ("oneOf", "anyOf", "allOf"):
+            if isinstance(s.get(k), list):
+                for b in s[k]:
+                    alias_targets(b, acc)
+    edges = {}
+    for n, sch in defs.items():
+        acc = set()
+        alias_targets(sch, acc)
+        edges[n] = {t for t in acc if t in defs}
+    for start in edges:
+        seen, todo = set(), list(edges[start])
+        while todo:
+            x = todo.pop()
+            if x == start:
+                return True
+            if x in seen:
+                continue
+            seen.add(x)
+            todo += list(edges.get(x, ()))
+    return False
 
 
 def classify(rc, out):
